@@ -350,6 +350,14 @@ func (fx *FuncExec) pkgMember(env *SpecEnv, pkg *types.Package, name string) Val
 }
 
 // lookupLocal finds the alloc(s) with the given source name.
+// underBinder evaluates the body of a quantifier: no top-level definitions or facts may mention the
+// bound variable (the counter is restored even when the evaluation fails).
+func (fx *FuncExec) underBinder(env *SpecEnv, e ast.Expr) Val {
+	fx.em.quant++
+	defer func() { fx.em.quant-- }()
+	return fx.evalSpec(env, e)
+}
+
 func (fx *FuncExec) lookupLocal(env *SpecEnv, name string) []*ssa.Alloc {
 	if env.calleeMode {
 		return nil
@@ -771,9 +779,7 @@ func (fx *FuncExec) evalSpecCall(env *SpecEnv, x *ast.CallExpr) Val {
 		e2 := env.with(v, Val{T: types.Typ[types.Int], Sort: SInt, S: bn})
 		wasIn := env.inQuant
 		e2.inQuant = true
-		fx.em.quant++
-		body := fx.evalSpec(e2, x.Args[3])
-		fx.em.quant--
+		body := fx.underBinder(e2, x.Args[3])
 		rng := and(fmt.Sprintf("(<= %s %s)", lo.S, bn), fmt.Sprintf("(< %s %s)", bn, hi.S))
 		if name == "forall" {
 			text := fmt.Sprintf("(forall ((%s Int)) %s)", bn, imp(rng, body.S))
@@ -808,9 +814,7 @@ func (fx *FuncExec) evalSpecCall(env *SpecEnv, x *ast.CallExpr) Val {
 		e2 := env.with(v, Val{T: types.Typ[types.String], Sort: SStr, S: bn})
 		e2.inQuant = true
 		wasIn := env.inQuant
-		fx.em.quant++
-		body := fx.evalSpec(e2, x.Args[1])
-		fx.em.quant--
+		body := fx.underBinder(e2, x.Args[1])
 		text := fmt.Sprintf("(forall ((%s Str)) %s)", bn, body.S)
 		if env.pol == 1 && env.rec != nil && !wasIn {
 			*env.rec = append(*env.rec, quantRec{text: text, bound: bn, body: body.S, sort: "Str"})
@@ -829,9 +833,7 @@ func (fx *FuncExec) evalSpecCall(env *SpecEnv, x *ast.CallExpr) Val {
 		ks := fx.em.SortOf(mt.Key())
 		_, _, dh, _ := fx.mapHeaps(env.state(), mt)
 		e2 := env.with(v, Val{T: mt.Key(), Sort: ks, S: bn})
-		fx.em.quant++
-		body := fx.evalSpec(e2, x.Args[2])
-		fx.em.quant--
+		body := fx.underBinder(e2, x.Args[2])
 		return bv(fmt.Sprintf("(forall ((%s %s)) %s)", bn, ks, imp(and(not(eq(m.S, "0")), sel(sel(dh, m.S), bn)), body.S)))
 	case "held":
 		l := fx.evalLoc(env, x.Args[0])
